@@ -195,6 +195,14 @@ pub fn check(case: &Case, obs: &Obs) -> CheckResult {
             obs.label("fault: lexical, data");
             // the failing unit's handler may or may not have been entered before the lexer reports the fault
             judge(&format!("non-ASCII byte in the data of unit {i}"), &escape(&b), &o, Err((-199, -100)), &upto_i, &incl_i)?;
+            // the same with a handler that does not propagate the error of its parameter pull
+            // ("optional parameter, else default"): a lexical fault still aborts the message
+            let mut plans = case.plans.clone();
+            plans[i].swallow = true;
+            let o = run_vec(&b, &plans);
+            runs += 1;
+            obs.label("fault: lexical, data, handler ignores the pull error");
+            judge(&format!("non-ASCII byte in the data of unit {i}, handler ignoring the pull error"), &escape(&b), &o, Err((-199, -100)), &upto_i, &incl_i)?;
         }
     }
     // 8. response buffer exhaustion at every capacity below the full length
@@ -272,6 +280,18 @@ fn run(e: &Engine) {
     let tp = Partitioned { alpha: &tok_idx, max_len: if cfg!(debug_assertions) { e.tier.pick(5, 6) } else { e.tier.pick(7, 8) }, prefix_len: 2 };
     let (tpr, toksr) = (&tp, &toks);
     e.enumerate::<D, _, _>("bytes-differential-all-token-strings", tp.parts(), move |part, f| tpr.run(part, &mut |s| f(D::Fix { bytes: B(execdiff::concat(toksr, s)) })), execdiff::check);
+    // sizes at 2^8 and 2^16: that many units in one message, that many data elements in one unit
+    if !cfg!(debug_assertions) {
+        let mut big: Vec<D> = Vec::new();
+        for n in [255u32, 256, 257, 65_535, 65_536, 65_537, 70_000] {
+            big.push(D::Repeat { head: B::default(), item: B(b"A;".to_vec()), n, tail: B(b"B:E".to_vec()) });
+            big.push(D::Repeat { head: B::default(), item: B(b"*X?;".to_vec()), n, tail: B(b"A?\n".to_vec()) });
+            big.push(D::Repeat { head: B(b"B:C 0".to_vec()), item: B(b",1".to_vec()), n, tail: B(b";D?".to_vec()) });
+            big.push(D::Repeat { head: B(b"A 'a'".to_vec()), item: B(b" , #11x".to_vec()), n, tail: B(b";ZZ;A".to_vec()) });
+            big.push(D::Repeat { head: B(b"A 1".to_vec()), item: B(b",2".to_vec()), n, tail: B(b",,3;A".to_vec()) });
+        }
+        e.fixed("bytes-differential-sizes-at-2^8-and-2^16", big, execdiff::check);
+    }
     e.proptest("bytes-differential-mutated-messages", e.tier.pick(300_000, 8_000_000), || crate::props::c01::mutated_fixed_bytes(0).prop_map(|b| D::Fix { bytes: B(b) }), execdiff::check);
     e.require_fraction("judged: command error expected", "judged message with two or more units", 0.05);
     e.require_fraction("judged: undefined header expected", "judged message with two or more units", 0.01);
